@@ -43,3 +43,49 @@ def select_one(env, match, expressions, projection):
             else:
                 place(match.parts + rel.parts, node, rel.obj)
     return compacted(node)
+
+
+# ---- compaction, one level (the recursion is the same function on the children)
+
+def fix(value):  # the compaction of a child: contracted abstractly (modular recursion)
+    raise NotImplementedError
+
+
+def compact_one(value, is_node):
+    """Every container is copied level by level; strings, scalars and empty containers are themselves.  A projection node whose keys are array indices
+    becomes the array of its (compacted) children in ascending index order - i.e. each index is replaced
+    by its rank among the indices selected in that array; any other object keeps its members."""
+    if isinstance(value, str) or not value:
+        return value
+    if isinstance(value, list):
+        return [fix(e) for e in value]
+    if isinstance(value, dict):
+        if is_node and isinstance(next(iter(value)), int):
+            return [fix(v) for _, v in sorted(value.items())]
+        return {k: fix(v) for k, v in value.items()}
+    return value
+
+
+# ---- placement, stated recursively on the projection nodes themselves
+
+def is_node(x):  # contracted abstractly: x is a projection node (not a selected value)
+    raise NotImplementedError
+
+
+def place_at(node, location, value):
+    """Put `value` at `location` below the projection node `node`, creating the nodes on the way.
+    A position on the way that already holds a selected value (not a node) means an ancestor was
+    selected as a whole: that value already contains the target and nothing changes."""
+    head = location[0]
+    if len(location) == 1:
+        node[head] = value
+        return None
+    if head in node:
+        child = node[head]
+        if is_node(child):
+            place_at(child, location[1:], value)
+        return None
+    child = new_node()
+    node[head] = child
+    place_at(child, location[1:], value)
+    return None
